@@ -448,6 +448,24 @@ pub fn check_tree(ts: &TreeSched, st: &mut Stats) -> Result<(), String> {
     if dom.quirks.get() != dom1.quirks.get() {
         return Err(format!("quirks mode differs: {} vs {}", quirks_name(dom.quirks.get()), quirks_name(dom1.quirks.get())));
     }
+    // the crate's own driver (Parser as a TendrilSink: process() per chunk, then finish())
+    if ts.inject.is_empty() {
+        use tendril::TendrilSink;
+        let mut p = crate::sinks::drive::make_parser(ModelDom::new(), &ts.tree.cfg);
+        for c in &ts.tree.chunks {
+            p.process(tendril::StrTendril::from(c.as_str()));
+        }
+        let d = p.finish();
+        let c = model_canon(&d, DOC, CanonOpts::default());
+        if c != b {
+            return Err(format!(
+                "tree via Parser::process/finish differs from the one-piece run: {}\n chunks {:?}",
+                first_diff(&b, &c),
+                ts.tree.chunks
+            ));
+        }
+        st.label("tree level: driver path (process/finish)");
+    }
     // RcDom too
     let (r, _, _) = drive_sched(RcDom::default(), ts, &ts.tree.chunks, &ts.inject);
     let (r1, _, _) = drive_sched(RcDom::default(), &one, &[fed.clone()], &[]);
